@@ -165,6 +165,54 @@ CHECKS["C16"] = dict(
                       "physical wiring is the one in the factories' id lists and comments (a common misreading of the real "
                       "site would go unnoticed).")
 
+CHECKS["C03"] = dict(
+    text="Battery.tla is one state machine (Charge(pilot, duration, noise draw), Reset) for the ideal, stepwise two-stage "
+         "and continuous two-stage laws in exact integer arithmetic (continuous law: rigorous rational enclosure with K "
+         "Euler micro-steps). TLC proves RateNonNegative, RateAtMostPilot, PowerAtMostMax, ChargeWithinCapacity, "
+         "ChargeNeverDecreases, DeliveredIsStored over every lattice battery, noise draw and call sequence within the "
+         "bound. Every emitted sequence is executed through Battery, EV/EVSE and whole Simulator runs (noise injected "
+         "as the spec's draw) and must meet the bounds and the spec bracket; real-noise executions of random "
+         "off-lattice batteries are validated by TLC against the physical envelope (BatteryTrace.tla), and the "
+         "in-simulation form (0 <= recorded rate <= pilot, energy inside the envelope) is validated on traces of real "
+         "simulations (AcnSimTrace.tla).",
+    tech="TLA+ spec (Battery.tla) + TLC invariants + spec-to-code replay + code-to-spec trace validation",
+    ref="5/C03", note="Trusted: TLC, Json module, the unit mapping (ratios of one capacity). Non-negative pilots; a noisy "
+                      "stepwise battery sitting exactly at the transition SoC is non-decisive (the law jumps there).")
+CHECKS["C14"] = dict(
+    text="On Battery.tla with noise off TLC checks the documented laws as theorems over every reachable state of charge: "
+         "IdealIsMinOfThree, ZeroPilot, Monotone (in pilot and in T), Split (T = T/2 + T/2), DecliningStage, "
+         "TwoStageVsIdeal, EnclosureTight, ResetRestores, on a per-state probe table of the spec's answer to every "
+         "(pilot, duration) call. The real classes must reproduce the exact ideal and stepwise values, lie inside the "
+         "rigorous enclosure of the continuous law, and satisfy the split / monotonicity / zero-pilot / reset identities "
+         "directly at float precision.",
+    tech="TLA+ spec (Battery.tla) + TLC theorems over probe tables + spec-to-code replay (exact values and enclosure)",
+    ref="5/C14", note="Trusted: TLC, Json module. Agreement with the continuous law is decided up to the enclosure width "
+                      "(<= 0.4 % of one period's maximum dSoC at K=128, 0.2 % at K=256); the identities are evaluated on "
+                      "the real battery at 1e-9 and do not inherit that width.")
+CHECKS["C11"] = dict(
+    text="EventQueue.tla models the pending set with Add, AddMany, GetEvent (any event of minimal (time, precedence)), "
+         "GetCurrent(t), the queries and the JSON round trip; TLC decides theorems T1-T8 (order, exact split at t, "
+         "conservation, queries reflect the pending set, round trip = identity, drain sorted) over all call sequences, "
+         "and that the heapq/tuple mechanism refines it (EventQueueHeap.tla, with a negative control). Binding is a "
+         "round trip: TLC emits plans, each plan is executed on the real EventQueue with real events and real "
+         "from_json(to_json()), and every log is validated by TLC against EventQueueTrace.tla in batches (a Python "
+         "reference model judges every line as a second oracle; nine corrupted traces must be rejected on every run).",
+    tech="TLA+ specs (EventQueue.tla, EventQueueHeap.tla refinement) + TLC invariants + plan execution on the real queue "
+         "+ code-to-spec batch trace validation",
+    ref="5/C11", note="Trusted: TLC/SANY, Json, the harness' event identification. Integer timestamps >= 0; get_event only "
+                      "on a non-empty queue; equal-key events may come out in any order; _timestep is not observed.")
+CHECKS["C18"] = dict(
+    text="Analysis.tla EXTENDS AcnSim and defines every function of acnsim.analysis as an exact operator over the recorded "
+         "trajectory (dE, Volt, T, sess, evE, t); TLC checks theorems tying the definitions to each other and to the "
+         "simulator state (A_Energy, A_Peak, A_Phasor, A_PhaseSum, A_RightNames for every subset and order of requested "
+         "ids, A_Nema, A_Proportion, A_Datetimes, A_Cost). Each completed behaviour is replayed step by step through the "
+         "real Simulator on a network with heterogeneous voltages and three-phase constraint rows, then every real "
+         "analysis function is called and compared with the spec's value.",
+    tech="TLA+ spec (Analysis.tla over AcnSim.tla) + TLC theorems + spec-to-code behaviour replay",
+    ref="5/C18", note="Trusted: TLC, Json, the AcnSim replay harness. Angles in {30,-90,150}; coefficients multiples of 1/4; "
+                      "rates multiples of 0.1 A (exact squared magnitudes); thresholds compared on decisive points only; "
+                      "undefined values (0/0) not compared; return_magnitudes polarity not compared.")
+
 NOT_APPLICABLE = []
 
 
